@@ -182,6 +182,14 @@ def probe_ops():
         ["helper", "cfgkey2name", 0x20930001],
         ["helper", "cfgkey2name", 0x30FF0001],
         ["helper", "val2bytes", 513, "U002"],
+        ["parse", f(b"\x0b", b"\x30", bytes(range(40))), 0, 1],                  # AID-ALM GET: 8 data words
+        ["parse", f(b"\x0b", b"\x30", b"\x05"), 2, 1],                          # AID-ALM POLL: svid
+        ["parse", f(b"\x0b", b"\x31", b"\x07"), 2, 1],
+        ["parse", f(b"\x01", b"\x60", bytes(range(16))), 0, 1],                  # NAV-AOPSTATUS / -L
+        ["parse", f(b"\x01", b"\x60", bytes(range(20))), 0, 1],
+        ["parse", f(b"\x06", b"\x8b", bytes([1, 0, 0, 0, 1, 0, 0x01, 0x10, 0x01])), 0, 1],   # undocumented key
+        ["config", "set", 1, 0, [["CFG_0x10010001", b"\x01"]]],                   # not a database name -> error
+        ["helper", "cfgkey2name", 0x10010001],
         ["stream", f(b"\x05", b"\x01", b"\x06\x01") + b"$GNGLL,5327.04319,N,00214.41396,W,223232.00,A,A*68\r\n"
          + f(b"\x06", b"\x31", b"\x00") + b"\xd3\x00\x00", 0],
     ]
@@ -194,6 +202,7 @@ def probe_digest():
 
 
 _BASELINE = {}
+_OPLOG = []  # every history operation executed in this process, in order (bounded)
 
 
 def baseline():
@@ -341,11 +350,26 @@ def check(case) -> core.Out:
     if k == "history":
         ops = case["ops"]
         want_d, want_r = baseline()
+        out = core.Out(classes=["history"], dig=core.digest(ops))
+        if not case.get("replay_log"):
+            # state leaked from histories run earlier in this process?  Then the
+            # whole operation log is the (replayable) history that exposes it.
+            pre_d, pre_r = probe_digest()
+            if pre_d != want_d and _OPLOG:
+                idx = next((i for i, (a, b) in enumerate(zip(pre_r, want_r)) if a != b), -1)
+                log = list(_OPLOG)
+                _OPLOG.clear()
+                out.viol.append((f"{PROP}|history-dependent",
+                                 f"after the {len(log)} operations run so far in this process, probe #{idx} gives "
+                                 f"{pre_r[idx][:80]!r} but {want_r[idx][:80]!r} in a fresh process"))
+                out.replay_case = {"kind": "history", "ops": log, "replay_log": True}
+                return out
         before = table_digests()
         results = [run_op(op) for op in ops]
+        _OPLOG.extend(ops)
+        del _OPLOG[:-600]
         got_d, got_r = probe_digest()
         after = table_digests()
-        out = core.Out(classes=["history"], dig=core.digest(ops))
         failing = any(r.startswith("exc:") for r in results)
         variant = any(op[0] in ("parse", "build-kw", "build-payload") and bytes(op[1])[-8:-6] != b"" for op in ops)
         out.nontrivial = failing and len(ops) >= 2
@@ -423,6 +447,17 @@ def op_for_target(draw, t, kinds=("parse", "build-payload", "build-kw")):
             draw(st.sampled_from([t.mode, t.mode, 3, 0])), draw(st.sampled_from([1, 0]))]
 
 
+@st.composite
+def sibling_ops(draw):
+    """Operations on every definition (all modes and variants) of one class/ID,
+    in a drawn order - caches keyed without the mode or the variant show here."""
+    targets = C.cat()[0]
+    t = targets[draw(st.integers(0, len(targets) - 1))]
+    sibs = [x for x in targets if x.clsid == t.clsid]
+    order = draw(st.permutations(sibs))
+    return [draw(op_for_target(x, kinds=("parse", "parse", "build-payload"))) for x in order[:4]]
+
+
 def any_op():
     targets = C.cat()[0]
     pick = st.integers(0, len(targets) - 1).flatmap(lambda i: op_for_target(targets[i]))
@@ -461,8 +496,9 @@ def run_shard(spec, ctx, acc):
                             max_examples=2 if quick else 12, known=known, rounds=1, shrink=False)
         return
     if what == "history":
-        strat = st.lists(any_op(), min_size=1, max_size=12 if quick else 30).map(
-            lambda ops: {"kind": "history", "ops": ops})
+        strat = st.tuples(st.lists(any_op(), min_size=1, max_size=10 if quick else 30),
+                          st.lists(sibling_ops(), max_size=2)).map(
+            lambda t: {"kind": "history", "ops": t[0] + [o for grp in t[1] for o in grp]})
         core.hyp_search(acc, strat, check, seed=core.derive(ctx["seed"], PROP, "h", spec["part"]),
                         max_examples=40 if quick else 800, known=known, rounds=2)
         return
